@@ -256,6 +256,15 @@ example : let sys0 : Sys := ⟨⟨[([1], ⟨⟨0, 1, 0, 0⟩, [65]⟩)], 2⟩,
     simp [Mem.lookup] at h
     obtain ⟨_, rfl⟩ := h; decide
 
+
+/-- the schedules the `sched` suite drives may contain a tick of the clock and a stale clock reading (`Sys.runToks`);
+    without them they are the schedules of the theorems above -/
+theorem C03_runToks_of_grants (sys : Sys) (now : Nat) (is : List Nat) :
+    sys.runToks now (is.map Tok.grant) = (sys.run now is, now) := by
+  induction is generalizing sys with
+  | nil => rfl
+  | cons i rest ih => simp only [List.map, Sys.runToks, Sys.run, List.foldl]; exact ih _
+
 end Memc
 
 #print axioms Memc.C03_get_decides_on_snapshot
@@ -267,3 +276,4 @@ end Memc
 #print axioms Memc.C03_collect_invisible
 #print axioms Memc.C03_linearizable
 #print axioms Memc.C03_ack_not_undone_later
+#print axioms Memc.C03_runToks_of_grants
